@@ -24,7 +24,7 @@ ImplRows(s, P) ==
                 prow == IF P = <<>> THEN <<>> ELSE PRow(P, j, n)
                 tval == IF s.dom = "mov" THEN (IF "dep_row0" \in Dev THEN P[1]["t"].vid ELSE prow["t"].vid) ELSE 0
                 cell == CASE s.kind = "data" -> Cell(IF s.v = "t" THEN r ELSE Code(s) + r, 0, r, -1)
-                          [] s.kind = "grid" -> Cell(Code(s) + tval * 100 + r, tval, -1, (12 * r) \div (s.n + 1))
+                          [] s.kind \in {"grid", "gridflt"} -> Cell(Code(s) + tval * 100 + r, tval, -1, (12 * r) \div (s.n + 1))
                           [] s.kind = "filtered" -> Cell(Code(s) + (IF s.dom = "mov" THEN i * 100 ELSE 0) + r, tval, -1, 1)
                           [] OTHER -> Cell(Code(s) + (IF s.dom = "mov" THEN i * 100 ELSE 0) + r, tval, -1, -1)
             IN [c \in {s.v} \cup PCols(P) |-> IF c = s.v THEN cell ELSE prow[c]]]
